@@ -677,7 +677,7 @@ func (w *L1World) opDepositTo(id uint64) {
 			w.run.Check("C10.sequence_gap_free", seq == b.nextSeq, "c10.sequence", w.trace(), "bridge %d deposit returned sequence %d, expected %d", id, seq, b.nextSeq)
 			w.checkDepositEvent(res, id, b.nextSeq, sender.String(), to, denom, amt, data)
 			aft := sim.AllBalances(w.env.L1.Ctx, w.env.L1.BK)
-			escAddr := ophosttypes.BridgeAddress(id).String()
+			escAddr := refBridgeAddr(id).String()
 			gotEsc := aft[escAddr].AmountOf(denom).Sub(before.balances[escAddr].AmountOf(denom))
 			gotSnd := before.balances[sender.String()].AmountOf(denom).Sub(aft[sender.String()].AmountOf(denom))
 			w.run.Check("C10.announced_amount_was_moved", gotEsc.Equal(amt) && gotSnd.Equal(amt), "c10.amount_not_moved", w.trace(), "deposit of %s%s announced, but the escrow received %s and the sender paid %s", amt, denom, gotEsc, gotSnd)
@@ -693,7 +693,7 @@ func (w *L1World) opDepositTo(id uint64) {
 		}
 		b.ledger[denom].Add(b.ledger[denom], amt.BigInt())
 		expect.add(sender.String(), denom, new(big.Int).Neg(amt.BigInt()))
-		expect.add(ophosttypes.BridgeAddress(id).String(), denom, amt.BigInt())
+		expect.add(refBridgeAddr(id).String(), denom, amt.BigInt())
 		w.feat["deposit_ok"]++
 	} else if w.mons.C10 && b != nil && b.exists && amt.IsPositive() && amt.LT(math.NewInt(userFunds/1000)) {
 		w.run.Count("C10.plausible_deposit_rejected")
@@ -735,7 +735,7 @@ func (w *L1World) opThirdPartySend() {
 	denom := mon.Pick(w.rng, w.env.Denoms)
 	amt := math.NewInt(int64(1 + w.rng.Intn(5000)))
 	before := w.observe()
-	res := w.env.L1.Deliver(banktypes.NewMsgSend(sender.Addr, ophosttypes.BridgeAddress(id), sdk.NewCoins(sdk.NewCoin(denom, amt))))
+	res := w.env.L1.Deliver(banktypes.NewMsgSend(sender.Addr, refBridgeAddr(id), sdk.NewCoins(sdk.NewCoin(denom, amt))))
 	w.run.Evaluations++
 	w.logf("bank_send to escrow(%d) from=%s %s%s -> %s", id, sender.Name, amt, denom, res.Class)
 	if res.Class == sim.OK {
@@ -1135,7 +1135,7 @@ func (w *L1World) deliverClaim(b *wBridge, m *ophosttypes.MsgFinalizeTokenWithdr
 		if w.mons.C02 {
 			w.run.Check("C02.paid_at_most_once", !v.paidBefore, "c02.double_payment", w.trace(), "withdrawal %x on bridge %d paid a second time", v.leaf[:6], m.BridgeId)
 			// "Claimed answers true exactly for withdrawals that have been paid": an accepted finalization moved the money
-			if to, err := sdk.AccAddressFromBech32(m.To); err == nil && !to.Equals(ophosttypes.BridgeAddress(m.BridgeId)) {
+			if to, err := sdk.AccAddressFromBech32(m.To); err == nil && !to.Equals(refBridgeAddr(m.BridgeId)) {
 				got := w.env.L1.BK.GetBalance(w.env.L1.Ctx, to, m.Amount.Denom).Amount.Sub(before.balances[to.String()].AmountOf(m.Amount.Denom))
 				w.run.Check("C02.claimed_query_agrees", got.Equal(m.Amount.Amount), "c02.claimed_but_not_paid", w.trace(), "finalization of %s accepted (the withdrawal now counts as claimed) but the recipient received %s", m.Amount, got)
 			}
@@ -1148,7 +1148,7 @@ func (w *L1World) deliverClaim(b *wBridge, m *ophosttypes.MsgFinalizeTokenWithdr
 			}
 			tb.ledger[d].Sub(tb.ledger[d], m.Amount.Amount.BigInt())
 		}
-		expect.add(ophosttypes.BridgeAddress(m.BridgeId).String(), m.Amount.Denom, new(big.Int).Neg(m.Amount.Amount.BigInt()))
+		expect.add(refBridgeAddr(m.BridgeId).String(), m.Amount.Denom, new(big.Int).Neg(m.Amount.Amount.BigInt()))
 		expect.add(m.To, m.Amount.Denom, m.Amount.Amount.BigInt())
 		w.feat["withdraw_ok"]++
 		if variant != "valid" {
